@@ -76,4 +76,10 @@ def parts(tier):
                                    spec_kw={'min_algs': 2}),
             cases=1600 if q else 50000, batch=200,
         ),
+        core.Part(
+            'timers', execute,
+            strategy=sim.histories(weights={'rereq': 2, 'timer': 8},
+                                   spec_kw={'min_algs': 2, 'events': True}),
+            cases=400 if q else 12500, batch=200,
+        ),
     ]
